@@ -4,6 +4,7 @@ package main
 // range loops summarised as quantifiers. Purely structural: blocks, branches, phis, provenance.
 
 import (
+	"go/constant"
 	"fmt"
 	"go/token"
 	"go/types"
@@ -431,6 +432,41 @@ func (qz *quantizer) boolOf(v ssa.Value, phis map[*ssa.Phi]*qf) *qf {
 			}
 		}
 	case *ssa.BinOp:
+		// helper(...) == K for a helper that returns one of a few constants (a three-way comparison, an
+		// enum): the disjunction of the conditions under which it returns K
+		if (t.Op == token.EQL || t.Op == token.NEQ) && (qz.inlineAll || qz.stop != nil) && qz.depth < qz.maxDepth() {
+			for _, pr := range [][2]ssa.Value{{t.X, t.Y}, {t.Y, t.X}} {
+				k, isK := pr[1].(*ssa.Const)
+				if !isK || k.Value == nil || isBoolType(k.Type()) || k.IsNil() {
+					continue
+				}
+				var call *ssa.Call
+				idx := 0
+				switch cv := pr[0].(type) {
+				case *ssa.Call:
+					call = cv
+				case *ssa.Extract:
+					call, _ = cv.Tuple.(*ssa.Call)
+					idx = cv.Index
+				}
+				if call == nil || call.Call.StaticCallee() == nil || !qz.p.InModule(call.Call.StaticCallee()) {
+					continue
+				}
+				callee := call.Call.StaticCallee()
+				if !returnsOnlyConsts(callee, idx) {
+					continue
+				}
+				qz.depth++
+				sub := qz.funcFormulaEq(callee, idx, call.Call.Args, k)
+				qz.depth--
+				if sub != nil && !sub.has("unknown") {
+					if t.Op == token.NEQ {
+						return qNot(sub)
+					}
+					return sub
+				}
+			}
+		}
 		if isBoolType(t.X.Type()) && (t.Op == token.EQL || t.Op == token.NEQ) {
 			x, y := qz.boolOf(t.X, phis), qz.boolOf(t.Y, phis)
 			if t.Op == token.EQL {
@@ -507,6 +543,7 @@ type quantCtx struct {
 	headers map[*ssa.BasicBlock]bool // loop headers currently being summarised: reaching them = next
 	subst   map[*ssa.Parameter]string
 	steps   int
+	eqConst *ssa.Const // when set: the formula is "result == eqConst" (for helpers returning one of a few constants)
 }
 
 // funcFormulaWith computes the formula of result #k of fn, with parameters described by args (caller
@@ -537,6 +574,65 @@ func (qz *quantizer) funcFormulaWith(fn *ssa.Function, k int, args []ssa.Value) 
 		}
 	}
 	return f
+}
+
+// funcFormulaEq: the formula of "result #k of fn equals the constant c".
+func (qz *quantizer) funcFormulaEq(fn *ssa.Function, k int, args []ssa.Value, c *ssa.Const) *qf {
+	if len(fn.Blocks) == 0 {
+		return nil
+	}
+	saved := map[ssa.Value]string{}
+	descs := make([]string, len(fn.Params))
+	for i := range fn.Params {
+		if i < len(args) {
+			descs[i] = qz.prov(args[i], 0)
+		}
+	}
+	for i, prm := range fn.Params {
+		if i < len(args) {
+			if old, ok := qz.elemVar[prm]; ok {
+				saved[prm] = old
+			}
+			qz.elemVar[prm] = descs[i]
+		}
+	}
+	cx := &quantCtx{fn: fn, result: k, phis: map[*ssa.Phi]*qf{}, headers: map[*ssa.BasicBlock]bool{}, eqConst: c}
+	f := qz.block(cx, fn.Blocks[0], nil)
+	for _, prm := range fn.Params {
+		delete(qz.elemVar, prm)
+		if old, ok := saved[prm]; ok {
+			qz.elemVar[prm] = old
+		}
+	}
+	return f
+}
+
+// returnsOnlyConsts: every return of fn gives a constant for result #k.
+func returnsOnlyConsts(fn *ssa.Function, k int) bool {
+	n := 0
+	for _, b := range fn.Blocks {
+		ret, ok := b.Instrs[len(b.Instrs)-1].(*ssa.Return)
+		if !ok {
+			continue
+		}
+		if k >= len(ret.Results) {
+			return false
+		}
+		if _, ok := ret.Results[k].(*ssa.Const); !ok {
+			// a phi of constants also counts
+			phi, isPhi := ret.Results[k].(*ssa.Phi)
+			if !isPhi {
+				return false
+			}
+			for _, e := range phi.Edges {
+				if _, ok := e.(*ssa.Const); !ok {
+					return false
+				}
+			}
+		}
+		n++
+	}
+	return n > 0
 }
 
 func (qz *quantizer) enterEdge(cx *quantCtx, from, to *ssa.BasicBlock) map[*ssa.Phi]*qf {
@@ -618,6 +714,16 @@ func (qz *quantizer) block(cx *quantCtx, b *ssa.BasicBlock, from *ssa.BasicBlock
 		}
 		if cx.result >= len(t.Results) {
 			return &qf{Op: "unknown", Atom: "no such result"}
+		}
+		if cx.eqConst != nil {
+			rv := t.Results[cx.result]
+			if c, ok := rv.(*ssa.Const); ok && c.Value != nil && cx.eqConst.Value != nil {
+				if constant.Compare(c.Value, token.EQL, cx.eqConst.Value) {
+					return qTrue()
+				}
+				return qFalse()
+			}
+			return &qf{Op: "atom", Atom: "(" + qz.prov(rv, 0) + " == " + cx.eqConst.Value.ExactString() + ")"}
 		}
 		return qz.boolOf(t.Results[cx.result], cx.phis)
 	case *ssa.If:
